@@ -8,13 +8,13 @@ from .facts import Point, op_local, op_place, op_root, op_int, place_fields, str
 # function classes (anchors of DESIGN §3).  External APIs are matched by resolved def path.
 
 VIEW_FNS = (
-    "reclaim::Shared::deref", "reclaim::Shared::as_ref", "reclaim::Shared::clone",
+    "reclaim::Shared::deref", "reclaim::Shared::as_ref", "reclaim::Shared::clone", "reclaim::Shared::as_ptr",
     "node::BinEntry::as_node", "node::BinEntry::as_tree_node", "node::BinEntry::as_tree_bin",
     "node::TreeNode::get_tree_node",
     "option::Option::unwrap", "option::Option::expect", "option::Option::as_ref", "option::Option::unwrap_unchecked",
     "option::Option::as_deref", "option::Option::copied", "option::Option::cloned",
     "ops::Deref::deref", "borrow::Borrow::borrow", "convert::AsRef::as_ref", "clone::Clone::clone",
-    "reclaim::GuardRef::deref",
+    "reclaim::GuardRef::deref", "sync::atomic::Atomic::into_inner", "sync::atomic::AtomicPtr::into_inner", "seize::Link::cast",
 )
 
 
